@@ -73,8 +73,8 @@ PROPS["C08"] = {
     "exhaustive": True,
     "data_obligations": ["children of text/plain before json are html, svg, xml, php, js, lua, perl, python"],
     "rule": "json: generator-produced RFC 8259 documents (all token spellings, layouts, strings starting with structural characters, escapes, non-ASCII), confirmed by encoding/json.Valid, examined whole and at every cut after the opening bracket (limit = cut): a rejection by the implementation is a C08 failure; jexh: exhaustive agreement with the model whose acceptance is proved sound (C09) and equals the grammar judge on every enumerated string; c10: whole valid objects must land in the JSON family; non-trivial = accepted by a JSON-family detector",
-    "proved": "the whole/truncated decision of jsonHelper; priority structure before json (data obligation)",
-    "not_proved": "completeness of the scanner w.r.t. RFC 8259 at every cut (mechanisation in progress): decided on the implementation by generation + exhaustive agreement",
+    "proved": "completeness of the scanner for every query table, level and depth within the cap (mutual induction over the grammar with RFC 8259 numbers); C08_whole: every such document examined in full is reported by the JSON detector; the whole/truncated decision; priority structure before json",
+    "not_proved": "the truncated case (every cut after the opening bracket): decided on the implementation by generation + exhaustive agreement implementation = model = judge",
     "assumptions": JSON_ASSUME,
 }
 PROPS["C10"] = {
